@@ -185,6 +185,7 @@ func cAuth(ctx *Ctx, prop string) {
 		var ops []authOp
 		var obsT, opT []string
 		var usedSeeds []authOp
+		var usedSrv []authOp
 		nOK, nCipher, reorder := 0, 0, 0
 		prevOrder := ""
 		for i := 0; i < nops; i++ {
@@ -255,7 +256,21 @@ func cAuth(ctx *Ctx, prop string) {
 					ent := service.MakeCipherEntry("x", mkKey(op.SrvC, op.SrvS), secretStr(op.SrvS))
 					srv := make([]byte, saltSizes[op.SrvC])
 					ent.SaltGenerator.GetSalt(srv)
+					if len(usedSrv) > 0 && r.Chance(35) { // the same recording of server output, presented again
+						u := usedSrv[r.Intn(len(usedSrv))]
+						op.C, op.S, op.SrvC, op.SrvS, op.Tail = u.C, u.S, u.SrvC, u.SrvS, u.Tail
+						key = mkKey(op.C, op.S)
+						srv = append([]byte{}, u.Salt...)
+						inCfg = false
+						for _, k := range cur {
+							if k.C == op.C && k.S == op.S {
+								inCfg = true
+							}
+						}
+						ctx.Count("salt:server-issued-again")
+					}
 					op.Salt = srv
+					usedSrv = append(usedSrv, op)
 					salt = append(append([]byte{}, srv...), genBytes(32, 7)...)[:saltSizes[op.C]]
 					ss = fmt.Sprintf("(SServer %d %d %s)", op.SrvC, op.SrvS, cBytes(srv))
 					ctx.Count("salt:server-issued")
